@@ -69,7 +69,9 @@ func (b *sb) probe(top int) {
 	b.add("dump")
 }
 
-func (b *sb) done(tag string) core.Case { return core.Case{Ops: b.ops, Tags: []string{"scripted", tag}} }
+func (b *sb) done(tag string) core.Case {
+	return core.Case{Ops: b.ops, Tags: []string{"scripted", tag}}
+}
 
 func scripted() []core.Case {
 	var cs []core.Case
